@@ -3,22 +3,26 @@ namespace Driver.C09
 open Imdlv.CreateFx
 
 def nodeOf (s : String) : Node :=
-  if s == "file" then .file [0] else if s == "dir" then .dir else .absent
+  if s == "file" then .file [0] else if s == "dir" then .dir else if s == "dangling" then .link "L" else .absent
 
-/-- `create <force> <dryrun> <stdout|path> <state at target> <state at target/name.torrent> <none|early|hashing|open>`
- → `fail` | `noop` | `write target` | `write inner` -/
+/-- `create <force> <dryrun> <stdout|path> <state at target> <state at target/name.torrent> <none|early|hashing|open> [<state at target at open time>]`
+ → `fail` | `noop` | `write target` | `write inner` | `write link` -/
 def handle (args : List String) : String :=
   match args with
-  | ["create", f, d, tgt, st, inner, fault] =>
+  | "create" :: f :: d :: tgt :: st :: inner :: fault :: rest =>
     let fs : FS := fun p => if p = "T" then nodeOf st else if p = "T/n.torrent" then nodeOf inner else .absent
+    -- optional interference: what is at the target when it is finally opened
+    let fsOpen : FS := match rest with
+      | [late] => fun p => if p = "T" then nodeOf late else fs p
+      | _ => fs
     let flt : Fault := if fault == "early" then .beforeOutputCheck else if fault == "hashing" then .whileHashing
       else if fault == "open" then .atOpen else .none
     let r : Req := { force := f == "1", dryRun := d == "1", target := if tgt == "stdout" then .stdout else .path "T",
                      torrentName := "n.torrent", fault := flt, bytes := [1] }
-    match decision fs r with
+    match decisionAt fs fsOpen r with
     | .fail => "fail"
     | .noop => "noop"
-    | .write out => if out = "T" then "write target" else "write inner"
+    | .write out => if out = "T" then "write target" else if out = "L" then "write link" else "write inner"
   | _ => "bad-op"
 
 end Driver.C09
